@@ -108,7 +108,7 @@ func propC12(c *Ctx) {
 		want := map[string]bool{
 			"!($0.s == $1) && !($0.s == 0) && !($0.s == 1) && !($0.s == 2) && !($0.s == 3)": true, // unknown state
 			"!($0.s == $1) && !($0.s == 0) && !($0.s == 1) && !($0.s == 2) && ($0.s == 3)":  true, // from expired
-			"!($1 == 3) && !($0.s == $1) && !($0.s == 0)":                                    true, // from ready/failed to non-expired
+			"!($1 == 3) && !($0.s == $1) && !($0.s == 0)":                                   true, // from ready/failed to non-expired
 		}
 		got := map[string]bool{}
 		for _, l := range lits {
